@@ -554,6 +554,20 @@ class Spec:
             fire_rel = o.k >= w and change < thr
             o.avg_q = new_q
             fire = fire_rel
+            # floating-point range: the code computes ((m-1)*avg + cost)/m and the two threshold products in doubles.
+            # Where one of those intermediates overflows (1e308 + 1e308), or the as-coded average / thresholds are off
+            # the exact ones by more than rounding level (underflow into the subnormals, cancellation), no comparison
+            # the code makes means what the property says: no demand on this condition from this report on
+            sum_f = (m - 1) * prev_f + c
+            hi_q, lo_q = (1 + e) * prev_q, (1 - e) * prev_q
+
+            def off(xf, xq):
+                return (not math.isfinite(xf)) or abs(Fraction(xf) - xq) > Fraction(1, 10 ** 9) * abs(xq)
+            if not math.isfinite(sum_f) or off(new_f, new_q) or off(hi_f, hi_q) or off(lo_f, lo_q):
+                self.range_sensitive = getattr(self, "range_sensitive", 0) + 1
+                o.exactable = False
+                o.undetermined = True
+                return
             if prev_q < 0 and fire_rel and not o.term:
                 self.neg_avg_decisions = getattr(self, "neg_avg_decisions", 0) + 1
                 o.neg_diverged = True         # classification only: a firing on a negative average (F481's territory)
@@ -849,8 +863,15 @@ def gen_iter_wrap(rng, spin=False):
 
 def cost_seq(rng, n):
     r = rng
-    kind = r.below(11)
+    kind = r.below(12)
     c0 = r.choice([1.0, 10.0, 123.456, 1e-3, 1e6])
+    if kind == 11:
+        # magnitude classes: finite costs whose sum overflows (1e308 + 1e308), DBL_MAX, subnormals and the smallest
+        # normals (the average and the threshold products underflow), and jumps between the extremes
+        cls = r.below(4)
+        pool = [[1e308, 1e308, 9e307, 1.7976931348623157e308, 1.2e308], [5e-324, 1e-310, 2.2250738585072014e-308, 3e-308, 1e-320],
+                [1e308, 1.0, 1e-300, 1e150, 1e-150, 5e-324], [8.9e307, 8.9e307, 4e307, 8.98e307]][cls]
+        return [r.choice(pool) for _ in range(n)]
     if kind == 8:
         # negative costs throughout (constant / converging): the running average is negative (F481)
         q = r.choice([1.0, 0.9, 0.99, 1.01])
@@ -1643,6 +1664,7 @@ def judge(ck, hbin, script, tag, res):
     ck.count("oracle:cost-decisions-with-a-negative-average", getattr(res["spec"], "neg_avg_decisions", 0))
     ck.count("oracle:no-demand-evaluations", res["spec"].uncertain)
     ck.count("oracle:rounding-sensitive-cost-decisions", res["spec"].rounding_sensitive)
+    ck.count("oracle:range-sensitive-cost-conditions", getattr(res["spec"], "range_sensitive", 0))
     ck.count("model:scheduling-dependent-lines", sum(1 for m in res["model"] if m.startswith("r=?")))
     if res["retries"]:
         ck.count("timing:retries", res["retries"])
